@@ -174,7 +174,14 @@ CHECKS['C14'] = dict(
                dict(tu='c14_convert', group='convert_cc', shards=2),
                dict(tu='c14_unary', group='fill', shards=1),
                dict(tu='c14_unary', group='foreach', shards=1),
-               dict(tu='c14_unary_w', group='fill', shards=2),        # 8 alternatives: compatible pixels of another channel order (rgb8 <-> bgr8)
+               # 8 alternatives (adds bgr8, rgba8, gray16): compatible pixels of another channel order (rgb8 <-> bgr8) in every binary algorithm
+               dict(tu='c14_unary_w', group='fill', shards=2),
+               dict(tu='c14_unary_w', group='foreach', shards=1),
+               dict(tu='c14_api_w', group='api', shards=1),
+               dict(tu='c14_copy_w', group='copy', shards=2),
+               dict(tu='c14_copy_w', group='equal', shards=2),
+               dict(tu='c14_convert_w1', group='convert', shards=2),
+               dict(tu='c14_convert_w2', group='convert_cc', shards=2),
                dict(tu='c14_resample', group='resample_nn', bounds=dict(dstall=0), shards=3),
                dict(tu='c14_resample', group='resample_bl', bounds=dict(dstall=0), shards=3)],
         thorough=[dict(tu='c14_api', group='api', shards=1),
